@@ -104,11 +104,14 @@ theorem gen_add_extension_block :
 the stored bundle is replaced before dispatching (`Cfg.fixed.persistRemoval`). -/
 theorem gen_receive :
     Dtn7.Gen.C06.receiveFlagLines =
-      ["for i := len(bp.MustBundle().CanonicalBlocks) - 1; i >= 0; i--",
+      ["var blockRemoved = false",
+       "for i := len(bp.MustBundle().CanonicalBlocks) - 1; i >= 0; i--",
        "if bpv7.GetExtensionBlockManager().IsKnown(cb.TypeCode())",
        "if cb.BlockControlFlags.Has(bpv7.StatusReportBlock)",
        "if cb.BlockControlFlags.Has(bpv7.DeleteBundle)",
-       "if cb.BlockControlFlags.Has(bpv7.RemoveBlock)"] ∧
+       "if cb.BlockControlFlags.Has(bpv7.RemoveBlock)",
+       "blockRemoved = true",
+       "if blockRemoved"] ∧
     Dtn7.Gen.C06.receiveSteps = ["IsKnown", "bundleDeletion", "ReplaceBundle", "NotifyNewBundle", "dispatching"] ∧
     Dtn7.Gen.C06.persistRemoval = Cfg.fixed.persistRemoval := by decide
 
